@@ -688,11 +688,16 @@ def gen_c08(rng, tier):
         for o in obs:
             c.add(o)
         c.add("ITER iter " + "n" * min(cur + 2, 80) + "l")
+        # the bit iterators through their adapters too: nth (k, j, K = usize::MAX), size_hint (h), len (l), past the end
+        for src in ("iter", "into"):
+            c.add("ITER %s %s" % (src, "".join(rng.choice("nnkhl") for _ in range(8)) + "hl" + rng.choice(["K", "j", "k"]) + "hlnhl"))
+            c.add("ITER %s %s" % (src, "j" * (cur // 8 + 2) + "hlkhl"))
         # conversions, clone, equality
         c.add("STORE m")
         c.add("OP toimm")
         for o in obs:
             c.add(o)
+        c.add("ITER iter " + "".join(rng.choice("nkjhl") for _ in range(10)) + "Khl")
         c.add("OP tomut")
         c.add("EQ m")
         c.add("CLONE")
@@ -898,6 +903,32 @@ def gen_c10(rng, tier):
                     c.add("Q ugetbits %d %d" % (rng.randrange(n - ln - (1 if kind == "bvm" else 0) + 1), ln))
         out.append(c)
         k += 1
+    # DArray: sparse groups (1024 ones, resp. zeros, spread over 65536 bits or more) next to dense ones: the unchecked
+    # selects against the checked ones at every offset class inside a group (i % 1024 below and above 32, multiples of 32)
+    for kind in ["darray1", "darray0"]:
+        for gap in sizes(tier, [70, 9], [70, 9, 200, 64]):
+            ones_n = rng.choice([1500, 2100, 3100])
+            pos, p = [], 0
+            for j in range(ones_n):
+                p += (gap + rng.randrange(0, 5)) if (j // 1024) % 2 == 0 else rng.randrange(1, 4)
+                pos.append(p)
+            n = pos[-1] + 1
+            c = Case("c10-da%d" % k, tags=dict(kind=kind, n=n, mix="sparse+dense gap%d" % gap, cost=n // 8))
+            k += 1
+            c.add("NEW %s - pos %d %s" % (kind, len(pos), " ".join(map(str, pos))))
+            idxs = sorted(set([0, 1, 31, 32, 33, 63, 64, 100, 1000, 1023, 1024, 1025, 1055, 1056, 1500 - 1, ones_n - 1] + [rng.randrange(ones_n) for _ in range(30)]))
+            for i in idxs:
+                if i < ones_n:
+                    c.add("Q uselect1 %d" % i)
+                    c.add("Q select1 %d" % i)
+            if kind == "darray1":          # darray1 = DArray<true>: with select0 support
+                zeros_n = n - ones_n
+                for i in sorted(set([0, 31, 32, 33, 1023, 1024, 1056, zeros_n - 1] + [rng.randrange(zeros_n) for _ in range(20)])):
+                    if 0 <= i < zeros_n:
+                        c.add("Q uselect0 %d" % i)
+                        c.add("Q select0 %d" % i)
+            c.model = n <= 60000
+            out.append(c)
     return out
 
 
@@ -1260,6 +1291,63 @@ def gen_c18(rng, tier):
         c.add("SER")
         c.model = False
         out.append(c)
+    # a query must depend on the structure's CONTENT only, not on which object sat at an address before or on what was
+    # asked last: two trees of the same type and depth exchanged by mem::swap (addresses stay, contents move), and a
+    # tree dropped and another built in its place, with the same queries before and after
+    kk2 = 0
+    for kind in QWT_KINDS + HQ_KINDS + ["wt", "hwt"]:
+        for rep in range(sizes(tier, 1, 3)):
+            elem = rng.choice(["u8", "u16", "u32"])
+            n = rng.choice([300, 900, 2100])
+            alpha = sorted(rng.sample(range(1, 200), rng.choice([5, 17, 40])))
+            a = [rng.choice(alpha) for _ in range(n)]
+            b = [rng.choice(alpha) for _ in range(n)]
+            if max(a) != max(b):
+                b[0] = max(a) if max(a) > max(b) else b[0]
+                a[0] = max(b) if max(b) > max(a) else a[0]
+            c = Case("c18-swap%d" % kk2, tags=dict(kind=kind, elem=elem, n=n, mix="swap/rebuild", cost=n * 20))
+            kk2 += 1
+            fam = "hq" if kind.startswith("hq") else "q" if kind.startswith("q") else "hw" if kind == "hwt" else "w"
+            c.fam = fam
+            qs = []
+            for sy in rng.sample(alpha, min(4, len(alpha))):
+                for kq in (0, 1, rng.randrange(40)):
+                    qs.append("Q select %d %d" % (sy, kq))
+                qs.append("Q rank %d %d" % (sy, rng.randrange(n + 1)))
+            qs.append("Q get %d" % rng.randrange(n))
+            c.add(C.new_line(kind, elem, "new", a))
+            for q in qs:
+                c.add(q)
+            c.add("STORE m")
+            c.add(C.new_line(kind, elem, "new", b))
+            for q in qs:
+                c.add(q)
+            c.add("SWAP m")
+            for q in qs:
+                c.add(q)
+            c.add("SWAP m")
+            for q in qs:
+                c.add(q)
+            # the same symbol asked right before and right after the exchange (nothing else in between)
+            for sy in rng.sample(alpha, min(5, len(alpha))):
+                k1, k2 = rng.randrange(30), rng.randrange(30)
+                for q in ("select", "rank"):
+                    c.add("Q %s %d %d" % (q, sy, k1))
+                    c.add("SWAP m")
+                    c.add("Q %s %d %d" % (q, sy, k1))
+                    c.add("Q %s %d %d" % (q, sy, k2))
+                    c.add("SWAP m")
+                    c.add("Q %s %d %d" % (q, sy, k2))
+                c.add("Q get %d" % k1)
+                c.add("SWAP m")
+                c.add("Q get %d" % k1)
+            c.add("DROP")
+            c.add(C.new_line(kind, elem, "new", a))
+            for q in qs:
+                c.add(q)
+            c.seq = a
+            c.model = False
+            out.append(c)
     # select structures with neighbouring occurrence indices queried concurrently: bit vectors whose ones (zeros)
     # are spread so that in-block scans cross several words, every select structure
     kk = 0
@@ -1445,6 +1533,11 @@ def gen_c19(rng, tier):
             c.add(C.bits_line(kind, "bits", bits)); c.add("STORE a")
             if bits and bits[-1] == 1:
                 c.add("NEW %s - pos %d %s" % (kind, len(pos), " ".join(map(str, pos)))); c.add("EQ a")
+                # the same set of positions given with repetitions and out of order: the same vector, the same counters
+                pos2 = pos + [rng.choice(pos) for _ in range(rng.randrange(1, 6))]
+                rng.shuffle(pos2)
+                c.add("NEW %s - pos %d %s" % (kind, len(pos2), " ".join(map(str, pos2)))); c.add("EQ a")
+                c.add("Q countones"); c.add("Q countzeros"); c.add("Q len")
         c.add("CLONE"); c.add("EQ a")
         # the same bits followed by zeros inside the same line / word: a different sequence
         for extra in [1, 3, 64]:
@@ -1494,6 +1587,13 @@ def gen_c04(rng, tier):
                     if fam in ("q", "hq"):
                         c.add("Q rankp %d %d" % (s, a))
             c.add("ITER iter nbnblnnbbl")
+            # the safe iterator adapters with extreme arguments: nth / nth_back of usize::MAX and past either end, then len
+            for src in ("iter", "into"):
+                c.add("ITER %s nRhlnbhl" % src)
+                c.add("ITER %s bKhlnbhl" % src)
+                c.add("ITER %s %s" % (src, "".join(rng.choice("nbkrjqhl") for _ in range(10)) + "hl"))
+                c.add("ITER %s %s" % (src, "q" * (n // 8 + 2) + "hlrhlnbhl"))
+                c.add("ITER %s %s" % (src, "j" * (n // 8 + 2) + "hlkhlnbhl"))
         elif fam == "rsq":
             for a in args:
                 c.add("Q get %d" % a)
@@ -1503,11 +1603,12 @@ def gen_c04(rng, tier):
             for s in [0, 1, 2, 3, 4, 5, 17, 255]:
                 c.add("Q occs %d" % s)
                 c.add("Q occssmaller %d" % s)
-            c.add("Q len"); c.add("Q isempty"); c.add("ITER iter nnnn")
+            c.add("Q len"); c.add("Q isempty"); c.add("ITER iter nnnn"); c.add("ITER iter nKhnh"); c.add("ITER into jhkhKhnh")
         elif fam == "qv":
             for a in args:
                 c.add("Q get %d" % a)
             c.add("Q len"); c.add("Q isempty"); c.add("ITER iter nnnn"); c.add("ITER into nnnn")
+            c.add("ITER iter nKhnh"); c.add("ITER into jhkhKhnh")
         elif fam in ("rsn", "rsw"):
             for a in args:
                 for q in ["get", "rank1", "rank0", "select1", "select0"]:
@@ -1528,7 +1629,8 @@ def gen_c04(rng, tier):
                 c.add("Q getword %d" % a)       # documented panic when out of range
                 for ln in [0, 1, 64, 65, MAXU]:
                     c.add("Q getbits %d %d" % (a, ln))
-            for l in ["Q len", "Q isempty", "Q countones", "Q countzeros", "ITER iter nnll", "ITER into nnllnl"]:
+            for l in ["Q len", "Q isempty", "Q countones", "Q countzeros", "ITER iter nnll", "ITER into nnllnl",
+                      "ITER iter nKhlnhl", "ITER into jhlkhlKhlnl", "ITER ones nKhnh", "ITER zeros jhkhn"]:
                 c.add(l)
             for a in args[:6] + [n, n + 1]:
                 c.add("Q oneswp %d" % a)
